@@ -487,3 +487,28 @@ func init() {
 		},
 	})
 }
+
+func init() {
+	register(&PropDef{
+		ID:    "C34",
+		Title: "Generic-contract methods on basic and container types agree with Go operators",
+		Explanation: "Decided, for every one of the ~220 closures installed by addBasicTypeMethodsCTI: G2 the method name -> operator table given by the property itself (Equal ==, Less <, Add + ... AndNot &^, Lsh <<, Rsh >>, Neg -x, Not !x / ^x, Cmp three-way shape, Real/Imag/Len builtins): the closure applies exactly that Go operator; G3 operands in order (a op b, the receiver placeholder unused); G4 operand and result types are the kind's own type (bool for Equal/Less, int for Cmp); " +
+			"G5 per kind, the set of methods given a body equals the set declared by go/types makeBasicMethods for that kind; U sibling uniformity across kinds in cti_basic_method.go and cti_method.go. The oracle is Go's own operator on the labelled type. " +
+			"Not decided: container methods implemented through reflect beyond uniformity (Index, Append, Copy ... are reflect calls trusted to equal the builtins).",
+		Assumptions: []string{"Go operator semantics on basic types", "reflect container operations equal the corresponding builtins"},
+		Rules: []func(*Ctx){ruleContractMethods, func(c *Ctx) {
+			ruleUniformity(c, "xreflect", []string{"cti_basic_method.go", "cti_method.go"}, "U-uniform")
+			c.Floor("G2-method-operator", 130)
+			c.Floor("G4-method-types", 130)
+			c.Floor("G5-method-set", 15)
+			c.Floor("U-uniform", 150)
+		}},
+		Mutants: []Mutant{
+			{Name: "uint16-rem-becomes-quo", File: "xreflect/cti_basic_method.go", Old: "b uint16,\n\n\t\t\t\t) uint16 {\n\t\t\t\t\treturn a % b", New: "b uint16,\n\n\t\t\t\t) uint16 {\n\t\t\t\t\treturn a / b", Canary: true},
+			{Name: "float64-sub-operands-swapped", File: "xreflect/cti_basic_method.go", Old: "b float64,\n\n\t\t\t\t) float64 {\n\t\t\t\t\treturn a - b", New: "b float64,\n\n\t\t\t\t) float64 {\n\t\t\t\t\treturn b - a", Canary: true},
+			{Name: "int8-cmp-inverted", File: "xreflect/cti_basic_method.go", Old: "b int8,\n\n\t\t\t\t) int {\n\t\t\t\t\tif a < b {\n\t\t\t\t\t\treturn -1", New: "b int8,\n\n\t\t\t\t) int {\n\t\t\t\t\tif a < b {\n\t\t\t\t\t\treturn 1"},
+			{Name: "string-less-becomes-leq", File: "xreflect/cti_basic_method.go", Old: "b string,\n\n\t\t\t\t) bool {\n\t\t\t\t\treturn a < b", New: "b string,\n\n\t\t\t\t) bool {\n\t\t\t\t\treturn a <= b"},
+			{Name: "declared-method-without-body", File: "go/types/cti_method.go", Old: "\t\t\tnewFunc(\"AndNot\", sig_binary),\n", New: "\t\t\tnewFunc(\"AndNot\", sig_binary),\n\t\t\tnewFunc(\"Nand\", sig_binary),\n"},
+		},
+	})
+}
